@@ -24,8 +24,10 @@ func propC02(c *Ctx) propInfo {
 	c.floor("E8.depth-limit", 2)
 	c.floor("E7.pruned-accessors", 4)
 	c.tailZero()
+	c.hashStoreReaders()
+	c.maskPropagation()
 	return propInfo{
-		explanation: "Static structural clauses of C02 (DESIGN.md §4 C02): nothing reachable from the hashing functions reads a read-cursor or writes a field of the cell being hashed; every public hash entry point reaches the one implementation (newImmutableCell) and differs only in the cache passed; in the per-level loop the descriptor and the mask-dependent representation take their mask from mask.Apply(level) of the loop level, the preimage is written in the order representation|previous hash, all child depths (2 bytes big-endian), all child hashes, with the child level shifted exactly for the two Merkle types; the depth limit dominates the append of a depth; pruned-branch accessors use strides 32 and 2 from base 2. Decides these necessary conditions, not the level-mask arithmetic nor numeric hash values.",
+		explanation: "Static structural clauses of C02 (DESIGN.md §4 C02): nothing reachable from the hashing functions reads a read-cursor or writes a field of the cell being hashed; every public hash entry point reaches the one implementation (newImmutableCell) and differs only in the cache passed; in the per-level loop the descriptor and the mask-dependent representation take their mask from mask.Apply(level) of the loop level, the preimage is written in the order representation|previous hash, all child depths (2 bytes big-endian), all child hashes, with the child level shifted exactly for the two Merkle types; the depth limit dominates the append of a depth; pruned-branch accessors use strides 32 and 2 from base 2. Decides these necessary conditions, not the level-mask arithmetic nor numeric hash values. Also the zero-tail invariant of bit strings (every bulk copy into a BitString buffer clones a whole buffer, sets a byte-aligned length or masks the last byte), on which the raw-buffer representation relies.",
 	}
 }
 
@@ -364,6 +366,19 @@ func (c *Ctx) hashConstants() {
 // tag in, so it relies on the invariant "bits at positions >= len are zero". Bit-level writers
 // keep it (On/Off at len); every *bulk* copy into a BitString buffer must either clone a whole
 // buffer together with its len, set a byte-aligned len, or mask the last byte afterwards.
+// tailZeroStatus evaluates the zero-tail rule without recording obligations.
+func (c *Ctx) tailZeroStatus() (bool, []string) {
+	sh := c.shadow()
+	sh.tailZero()
+	var bad []string
+	for _, o := range sh.Obls {
+		if o.Rule == "E10.tail-zero" && o.Status == "violation" {
+			bad = append(bad, o.Key)
+		}
+	}
+	return len(bad) == 0, bad
+}
+
 func (c *Ctx) tailZero() {
 	const R = "E10.tail-zero"
 	// the consumer: confirm the reliance exists (otherwise the rule is moot and must be revisited)
@@ -472,4 +487,50 @@ func sameIndexAddr(v ssa.Value, ia *ssa.IndexAddr) bool {
 	}
 	o, ok := v.(*ssa.IndexAddr)
 	return ok && o.X == ia.X && o.Index == ia.Index
+}
+
+// hashStoreReaders: the per-level hash and depth arrays of an immutable cell are indexed by
+// significant level, not by level; only the two accessors (which translate a level through
+// mask.Apply(level).HashIndex()) and the constructor touch them. Any other reader would hand out
+// "hash number k" as if it were "the hash of level k".
+func (c *Ctx) hashStoreReaders() {
+	const R = "E10.hash-store-readers"
+	allowed := map[string]string{
+		"boc.newImmutableCell":         "constructor: appends the hashes in order and chains the previous one",
+		"(*boc.immutableCell).Hash":   "accessor: index = mask.Apply(level).HashIndex()",
+		"(*boc.immutableCell).Depth":  "accessor: index = mask.Apply(level).HashIndex()",
+	}
+	n := 0
+	for _, f := range c.moduleFuncs("boc", "tlb", "ton", "wallet", "liteapi") {
+		seen := map[string]bool{}
+		allInstrs(f, func(_ *ssa.BasicBlock, in ssa.Instruction) {
+			var fa ssa.Value
+			switch x := in.(type) {
+			case *ssa.FieldAddr:
+				fa = x
+			case *ssa.Field:
+				fa = x
+			default:
+				return
+			}
+			tn, fn, ok := fieldOf(fa)
+			if !ok || tn != "boc.immutableCell" || (fn != "hashes" && fn != "depths") {
+				return
+			}
+			name := fnName(origin(f))
+			key := name + " touches immutableCell." + fn
+			if seen[key] {
+				return
+			}
+			seen[key] = true
+			n++
+			if why, ok := allowed[name]; ok {
+				c.ok(R, key, in.Pos(), why)
+			} else {
+				c.bad(R, key, in.Pos(), name+" reads immutableCell."+fn+" directly: the arrays are indexed by significant level, so element k is not the value for level k (element 0 of an ordinary cell with level > 0 is its level-0 hash, not its representation hash); use Hash(level)/Depth(level)")
+			}
+		})
+	}
+	c.floor(R, 4)
+	_ = n
 }
